@@ -56,7 +56,7 @@ Proof. now apply text_eqb_eq. Qed.
 Lemma stream_read_app d rest : d <> [] -> stream_read (length d) (d ++ rest) = Ok (d, rest).
 Proof.
   intros H. unfold stream_read. rewrite firstn_app_exact, skipn_app_exact.
-  destruct d; [congruence|reflexivity].
+  destruct d as [|x d]; [congruence|]. rewrite Nat.ltb_irrefl. reflexivity.
 Qed.
 
 Lemma elem_decode_gen name size fmt lt enc sg w d rest :
